@@ -81,9 +81,9 @@ var checks = []checkDef{
 		Rule: layerARule, StateMeasure: layerAStates, Assumptions: layerAAssume, RealStub: layerAReal,
 		MustProbe: []string{"output_ended_by_itself", "data_with_terminal_error", "read_burst_over_2k", "read_zero_len", "cancel_under_flood_stalled"}},
 	{ID: "C04", Engine: "brokersim", Level: "exploration", QuickMS: 40000, ThoroughMS: 600000, SelftestRuns: 200,
-		Also: []also{{Engine: "hsrvsim", Workers: 4, Why: "the same property observed through the real net/http server, chunked encoding and TLS (refused attempts end at once and get nothing, lines reach the client at the quiescent point, output displayed byte-exact, peer stream ended)"}},
+		Also: []also{{Engine: "hsrvsim", Workers: 4, Why: "the same property observed through the real net/http server, chunked encoding and TLS (refused attempts end at once and get nothing, lines reach the client at the quiescent point, output displayed byte-exact, peer stream ended)"}, {Engine: "termsim", Workers: 1, Why: "the last leg of every announcement: status lines (which is what the closure, ready and gone notices are) reach the terminal whatever the mute state and whatever is queued around them"}},
 		Rule: layerARule, StateMeasure: layerAStates, Assumptions: layerAAssume, RealStub: layerAReal,
-		MustProbe: []string{"generations", "cancel_under_flood_stalled", "teardown_window_entered", "shutdown", "input_closed", "client_cancel"}},
+		MustProbe: []string{"generations", "cancel_under_flood_stalled", "teardown_window_entered", "shutdown", "input_closed", "client_cancel", "shutdown_while_lock_section_blocked", "status_while_muted"}},
 	{ID: "C06", Engine: "brokersim", Level: "exploration", QuickMS: 40000, ThoroughMS: 600000, SelftestRuns: 200,
 		Rule:         layerARule + "; in addition every grant order of the halves of 2 and 3 simultaneous /io requests (24 and 720 orders) on four base states (idle, unidirectional input attached, unidirectional shell attached, unidirectional shell being torn down) is enumerated completely in both tiers (probe enum_cases)",
 		StateMeasure: layerAStates, Assumptions: layerAAssume, RealStub: layerAReal,
